@@ -1,7 +1,8 @@
 (** C01 — the generated ODE right-hand side is the mass-action law of the input
     network.  Property theorems only; every proof is [exact <lemma>]. *)
 From Coq Require Import List Arith Bool String ZArith Ring InitialRing.
-From Naunet Require Import Lib.ListX Model.OdeGen Proofs.OdeRefine Proofs.OdeSem.
+From Coq Require Import Ascii.
+From Naunet Require Import Lib.Sexp Lib.ListX Lib.PyStr Model.CExpr Model.OdeGen Model.OdeText Proofs.OdeRefine Proofs.OdeSem Proofs.OdeTextProofs.
 Import ListNotations.
 
 Section AnyRing.
@@ -46,6 +47,41 @@ End AnyRing.
 Print Assumptions rhs_mass_action.
 Print Assumptions unreacting_zero.
 Print Assumptions thermal_eq.
+
+(** text level.  The right-hand side is emitted as text: "0.0" followed by
+    " - k[l]*y[IDX_a]*y[IDX_b]" ...  For EVERY list of terms this text, lexed with
+    C's maximal munch and parsed with C precedence, is the left-nested sum of the
+    products (no term is fused with its neighbour, swallowed or re-associated) ... *)
+Theorem rhs_text_parses : forall ts : list tterm,
+  parse (rhs_txt ts) = Some (sum_ex zero_lit (map to_sterm ts)).
+Proof. exact parse_rhs. Qed.
+Print Assumptions rhs_text_parses.
+
+(* ... so the text of a species row, read as C with a[i] the i-th element of array a,
+   evaluates to the mass-action law - over any commutative ring, for every network
+   (rows holding a user modifier factor, which is arbitrary text, are excluded by the
+   decidable premise tterms_of = Some) *)
+Theorem rhs_text_is_mass_action :
+  forall (R : Type) (rO rI : R) (radd rmul rsub : R -> R -> R) (ropp : R -> R),
+  ring_theory rO rI radd rmul rsub ropp (@eq R) ->
+  forall (E : env R) (i : ode_input) (s : nat) (ts : list tterm),
+  wf_input i -> s < i_nspec i -> tterms_of (rhs_row i s) = Some ts ->
+  exists e, parse (rhs_txt ts) = Some e /\
+            den R rO radd rmul rsub E e =
+            radd (ma_sum R rO rI radd rmul rsub E s 0 (i_rxns i)) (mod_sum R rO rI radd rmul ropp E s (i_mods i)).
+Proof. intros R rO rI radd rmul rsub ropp Rth. exact (rhs_text_lemma R rO rI radd rmul rsub ropp Rth). Qed.
+Print Assumptions rhs_text_is_mass_action.
+
+(* non-vacuity: the text of H + H -> H2 (slot 0 = H, reaction 0) with the digits and
+   macro names written out *)
+Theorem rhs_text_example :
+  let i := {| i_nspec := 2; i_rxns := [ {| reac := [0; 0]; prod := [1] |} ]; i_mods := []; i_heat := []; i_cool := [] |} in
+  option_map (fun ts => str (flatten_with (fun n => chars (print_Z (Z.of_nat n)))
+                                          (fun v => chars (if Nat.eqb v 0 then "IDX_HI" else "IDX_H2I")) (rhs_txt ts)))
+             (tterms_of (rhs_row i 0))
+  = Some "0.0 - k[0]*y[IDX_HI]*y[IDX_HI] - k[0]*y[IDX_HI]*y[IDX_HI]"%string.
+Proof. vm_compute. reflexivity. Qed.
+Print Assumptions rhs_text_example.
 
 (* the generated additions are exactly those of the assembly loops (refinement) *)
 Theorem assembly_refines : forall i : ode_input,
